@@ -11,6 +11,7 @@ import (
 	"go/printer"
 	"go/token"
 	"os"
+	"reflect"
 	"strconv"
 	"strings"
 
@@ -76,27 +77,56 @@ func Canon(src string) (string, error) {
 	return b.String(), nil
 }
 
+// structure dumps the AST without positions, comments and resolver data: two sources that differ only in comments
+// and layout have the same dump.
+func structure(src string) (string, error) {
+	fset := token.NewFileSet()
+	f, err := parser.ParseFile(fset, "x.go", src, parser.SkipObjectResolution)
+	if err != nil {
+		return "", err
+	}
+	var b bytes.Buffer
+	posType := reflect.TypeOf(token.NoPos)
+	filter := func(name string, v reflect.Value) bool {
+		if v.Type() == posType {
+			return false
+		}
+		switch name {
+		case "Doc", "Comment", "Comments", "Obj", "Scope", "Unresolved", "Imports", "FileStart", "FileEnd", "GoVersion":
+			return false
+		}
+		return true
+	}
+	if err := ast.Fprint(&b, nil, f, filter); err != nil {
+		return "", err
+	}
+	return b.String(), nil
+}
+
 // ASTDiff compares two Go sources modulo comments and formatting; it returns
 // "" when equal, else a short description of the first difference.
 func ASTDiff(a, b string) string {
-	ca, err := Canon(a)
+	sa, err := structure(a)
 	if err != nil {
 		return "first file does not parse: " + err.Error()
 	}
-	cb, err := Canon(b)
+	sb, err := structure(b)
 	if err != nil {
 		return "second file does not parse: " + err.Error()
 	}
-	if ca == cb {
+	if sa == sb {
 		return ""
 	}
+	// human-readable location of the first difference (best effort, from the printed form)
+	ca, _ := Canon(a)
+	cb, _ := Canon(b)
 	la, lb := strings.Split(ca, "\n"), strings.Split(cb, "\n")
 	for i := 0; i < len(la) && i < len(lb); i++ {
-		if la[i] != lb[i] {
+		if strings.TrimSpace(la[i]) != strings.TrimSpace(lb[i]) {
 			return fmt.Sprintf("line %d: %q vs %q", i+1, strings.TrimSpace(la[i]), strings.TrimSpace(lb[i]))
 		}
 	}
-	return fmt.Sprintf("length differs: %d vs %d lines", len(la), len(lb))
+	return fmt.Sprintf("structure differs (%d vs %d printed lines)", len(la), len(lb))
 }
 
 // ReadFile is os.ReadFile returning a string.
